@@ -648,6 +648,48 @@ func factsMain(args []string) error {
 	sort.Strings(shared)
 	fmt.Fprintf(&sb, "/-- process-wide or manager-wide shared containers (sync.Pool / sync.Map variables and fields, package-level maps) -/\ndef sharedContainers : List String := %s\n", leanList(shared))
 
+	// ---- every call of Combine(child, parent) in html/template.go and exp/scope.go: (enclosing function, head of the
+	// child argument, the parent argument). Lookup is child first (C06): the parent must be the OUTER scope at every site.
+	var combineSites []string
+	for _, rel := range []string{"html/template.go", "exp/scope.go"} {
+		f, err := parse(rel)
+		if err != nil {
+			return err
+		}
+		for _, d := range f.Decls {
+			fd, ok := d.(*ast.FuncDecl)
+			if !ok || fd.Name.Name == "Combine" {
+				continue
+			}
+			ast.Inspect(fd, func(n ast.Node) bool {
+				ce, ok := n.(*ast.CallExpr)
+				if !ok || len(ce.Args) != 2 {
+					return true
+				}
+				name := ""
+				switch fn := ce.Fun.(type) {
+				case *ast.Ident:
+					name = fn.Name
+				case *ast.SelectorExpr:
+					name = fn.Sel.Name
+				}
+				if name != "Combine" {
+					return true
+				}
+				var a, b strings.Builder
+				printer.Fprint(&a, fset, ce.Args[0])
+				printer.Fprint(&b, fset, ce.Args[1])
+				head := a.String()
+				if i := strings.IndexAny(head, "({"); i >= 0 {
+					head = head[:i]
+				}
+				combineSites = append(combineSites, fmt.Sprintf("(%s, %s, %s)", leanStr(fd.Name.Name), leanStr(strings.TrimSpace(head)), leanStr(b.String())))
+				return true
+			})
+		}
+	}
+	fmt.Fprintf(&sb, "/-- Combine(child, parent) call sites: (function, head of the child argument, parent argument) -/\ndef combineSites : List (String × String × String) := [%s]\n", strings.Join(combineSites, ", "))
+
 	sb.WriteString("\nend Facts\n")
 	return os.WriteFile(*out, []byte(sb.String()), 0o644)
 }
